@@ -491,6 +491,47 @@ pub fn run(ctx: &mut Ctx, which: Which) {
         });
     }
     if which.c01 {
+        // capture()/communicate() of a pipeline whose later command cannot be started, while an earlier command is
+        // already writing more to the shared stderr (or to its successor's pipe) than a pipe holds: the call returns the
+        // error; it does not wait for a command that is waiting for somebody to read what the call itself still holds
+        let nf = ctx.n(48, 600);
+        ctx.family("pipeline-cannot-start-while-an-earlier-command-floods", nf, |ctx, rng, i| {
+            run::begin_case();
+            let dir = ctx.scratch("c01f");
+            let seed = rng.next() >> 1;
+            let flood = rng.range(70_000, 1_500_000);
+            let stream = 1 + (i % 2);
+            let script = format!("w{}:{}:{},x0", stream, flood, comm::chunk(rng));
+            let first = subprocess::Exec::cmd(&ctx.vchild).args(&["io", &seed.to_string(), &script]).arg(dir.join("rep"));
+            let n_mid = (i / 2) % 2;
+            let mut cmds = vec![first];
+            for j in 0..n_mid {
+                cmds.push(subprocess::Exec::cmd(&ctx.vchild).args(&["stage", &j.to_string(), "1", "0", "0", "0", "0"]).arg(dir.join(format!("mid{}.rep", j))));
+            }
+            cmds.push(subprocess::Exec::cmd(dir.join("no-such-command")));
+            let pl = subprocess::Pipeline::from_exec_iter(cmds);
+            let how = (i / 4) % 3;
+            let m = run::monitored(move || -> Result<String, String> {
+                match how {
+                    0 => pl.capture().map(|c| format!("{:?}", c.exit_status)).map_err(|e| e.to_string()),
+                    1 => pl.communicate().map(|_| "communicator".to_string()).map_err(|e| e.to_string()),
+                    _ => pl.stdin(vec![b'x'; 100_000]).capture().map(|c| format!("{:?}", c.exit_status)).map_err(|e| e.to_string()),
+                }
+            });
+            ctx.count("pipelines_that_cannot_start_while_an_earlier_command_floods", 1);
+            ctx.distinct(&format!("plflood|{}|{}|{}", stream, n_mid, how));
+            let w = J::obj().set("first_command", J::s(&script)).set("commands", J::i(n_mid as i64 + 2)).set("call", J::s(["capture", "communicate", "capture with input"][how as usize])).set("result", J::s(&format!("{:?}", m.result)));
+            if let Some(c) = &m.cert {
+                ctx.violation(&format!("C01/deadlock/pipeline-cannot-start/{}", ["capture", "communicate", "capture-with-input"][how as usize]), "the pipeline could not start its last command and the call did not return: it waits for an earlier command that is blocked writing to a pipe whose read end the call holds", w.set("detail", run::cert_json(c)));
+            } else if m.hard_timeout {
+                ctx.inconclusive("failing pipeline start did not end (no certificate)", w);
+            } else if let Some(Ok(r)) = &m.result {
+                ctx.violation("C01/pipeline-cannot-start/no-error", &format!("the last command does not exist but the call reported {}", r), w);
+            }
+            run::end_case();
+        });
+    }
+    if which.c01 {
         // "all subsets of piped streams" includes the empty one: an exchange that has no stream (left) to service - nothing
         // piped at all, the pipes already consumed by an earlier call, one more read() after an exchange that had only
         // stdin to deliver - has nothing to wait for and returns.  A caller stuck in a wait that no descriptor and no
